@@ -9,6 +9,19 @@ oracle: the property statement evaluated with numpy directly on the real
        are exactly the first num_real_particles slots; neighbour queries after
        the update that follows are exact against brute force.
 
+Histories on ONE search structure (round 2, seeds A2/B2): between the
+re-orderings of a case the arrays are edited -- particles added
+(add_particles / append_parray) and removed, so that the particle count is
+not the one the NNPS object saw when it was constructed, also through the
+ghosts a periodic DomainManager makes in its first update(); properties
+(scalar and strided, every C type) added (add_property / ensure_properties /
+append_parray of an array with extra properties) and removed -- then the
+structure is updated and the arrays re-ordered again.  Every particle carries
+a unique id that is copied into every component of every property except
+x, y, z, h, tag, so a property that did not travel with its particle shows.
+All oracles run after every re-ordering, for the CURRENT particle count and
+the CURRENT property set.
+
 The cell id / key / octant of each particle (geometry, C01's subject) is
 recomputed here from the positions and the public geometry of the search
 structure (xmin, cell_size, ncells_per_dim, octree node boxes) with the same
@@ -35,6 +48,7 @@ from cyarray.api import LongArray, UIntArray  # noqa: E402
 from pysph.base.utils import get_particle_array  # noqa: E402
 from pysph.base import nnps as NN  # noqa: E402
 from pysph.base.nnps_base import NNPS as NNPSBase  # noqa: E402
+from pysph.base.nnps_base import DomainManager  # noqa: E402
 from pysph.base.octree import Octree, CompressedOctree  # noqa: E402
 from pysph.solver.solver import Solver  # noqa: E402
 
@@ -72,16 +86,77 @@ def discover():
 
 # ---------------------------------------------------------------- cases
 
-def gen_case(rng, cls, big=False):
+# properties that may be added to / removed from an array AFTER the search
+# structure was made: (name, C type, stride)
+LATE = [('T', 'double', 1), ('V3', 'double', 3), ('Q', 'int', 1),
+        ('W2', 'float', 2), ('K', 'long', 1), ('G4', 'unsigned int', 4),
+        # names of the construction-time extras, possibly with another shape
+        ('A', 'double', 3), ('A', 'double', 1), ('S', 'int', 2),
+        ('L', 'long', 1), ('U', 'unsigned int', 4), ('F', 'float', 2),
+        ('F', 'float', 1), ('D9', 'double', 9), ('S', 'long', 3)]
+# never edited / never rewritten with the particle's id
+GEOM = ('x', 'y', 'z', 'h', 'tag')
+
+
+def gen_edits(rng, dim, ext, narr, rounds, periodic):
+    """what happens to the arrays before each re-ordering of the history"""
+    out = []
+    for r in range(rounds):
+        ops = []
+        if rng.random() < (0.55 if r == 0 else 0.8):
+            for _ in range(rng.choice([1, 1, 2, 2, 3])):
+                ai = rng.randrange(narr)
+                kind = rng.choice(['add', 'add', 'append', 'remove', 'remove',
+                                   'addprop', 'addprop', 'ensure', 'rmprop'])
+                if kind in ('add', 'append'):
+                    m = rng.choice([1, 1, 2, 3, 5, 8, 13])
+                    pts = [[rng.randrange(ext) if k < dim else 0
+                            for k in range(3)] for _ in range(m)]
+                    op = {'op': kind, 'a': ai, 'pts': pts,
+                          'h': [rng.choice([8, 12, 16]) for _ in range(m)],
+                          'tag': [rng.choice([0, 0, 0, 1] if periodic else
+                                             [0, 0, 0, 1, 2])
+                                  for _ in range(m)]}
+                    if kind == 'append' and rng.random() < 0.6:
+                        op['new'] = [list(rng.choice(LATE))]
+                    ops.append(op)
+                elif kind == 'remove':
+                    ops.append({'op': 'remove', 'a': ai,
+                                'frac': rng.choice([0.1, 0.3, 0.5, 0.9]),
+                                'seed': rng.randrange(1 << 20)})
+                elif kind == 'addprop':
+                    ops.append({'op': 'addprop', 'a': ai,
+                                'prop': list(rng.choice(LATE))})
+                elif kind == 'ensure':
+                    ops.append({'op': 'ensure', 'a': ai,
+                                'props': [list(q) for q in
+                                          rng.sample(LATE[:6], rng.choice([1, 2, 3]))]})
+                else:
+                    ops.append({'op': 'rmprop', 'a': ai,
+                                'name': rng.choice(LATE)[0]})
+        out.append({'ops': ops, 'update': rng.random() < 0.6})
+    return out
+
+
+def gen_case(rng, cls, big=False, history=None):
+    if history is None:
+        history = rng.random() < 0.5
+    periodic = history and rng.random() < 0.3
     dim = rng.choice([1, 2, 2, 3, 3])
+    if periodic and dim == 3 and not big:
+        dim = 2
     narr = rng.choice([1, 1, 2, 2, 3])
     style = rng.choice(['uniform', 'uniform', 'clustered', 'lattice',
                         'coincident'])
     hstyle = rng.choice(['const', 'const', 'two', 'var'])
     ext = rng.choice([64, 128, 256, 256])        # extent in units of 1/64
+    if periodic:
+        ext = rng.choice([128, 256])
     arrays = []
     for a in range(narr):
         n = rng.choice([1, 2, 3, 5, 9, 17, 30, 45] + ([80, 150] if big else [60]))
+        if periodic:
+            n = min(n, 45)
         if rng.random() < 0.05:
             n = rng.choice([1, 2])
         pts = []
@@ -113,7 +188,13 @@ def gen_case(rng, cls, big=False):
         else:
             hs = [rng.choice([6, 8, 10, 12, 16, 20, 24]) for _ in range(n)]
         tagstyle = rng.choice(['local', 'ghosts', 'ghosts', 'mixed', 'mostly-ghost'])
-        if tagstyle == 'local':
+        if periodic:
+            # the domain manager owns the Ghost tag (it removes and re-makes
+            # all Ghost particles in every update): Local / Remote only
+            tagstyle = rng.choice(['local', 'remote'])
+        if tagstyle == 'remote':
+            tags = [0 if rng.random() < 0.8 else 1 for _ in range(n)]
+        elif tagstyle == 'local':
             tags = [0] * n
         elif tagstyle == 'ghosts':
             tags = [0 if rng.random() < 0.7 else 2 for _ in range(n)]
@@ -141,15 +222,28 @@ def gen_case(rng, cls, big=False):
         opts['fixed_h'] = rng.random() < 0.3
     opts['cache'] = rng.random() < 0.3
     rounds = rng.choice([1, 2, 3])
+    if history:
+        rounds = rng.choice([2, 3, 3, 4])
     moves = []
     for r in range(rounds):
         if r > 0 and rng.random() < 0.6:
             moves.append(rng.randrange(1 << 30))
         else:
             moves.append(None)
-    return {'cls': cls, 'dim': dim, 'arrays': arrays, 'opts': opts,
+    case = {'cls': cls, 'dim': dim, 'arrays': arrays, 'opts': opts,
             'radius_scale': rng.choice([2.0, 2.0, 3.0, 1.0]),
             'rounds': rounds, 'moves': moves, 'ext': ext}
+    if history:
+        case['edits'] = gen_edits(rng, dim, ext, narr, rounds, periodic)
+    if periodic:
+        per = [k < dim and rng.random() < 0.7 for k in range(3)]
+        if not any(per):
+            per[0] = True
+        case['domain'] = {'periodic': per}
+        case['radius_scale'] = rng.choice([2.0, 2.0, 1.0])
+        for a in arrays:        # a couple of cells across the box
+            a['h'] = [min(v, 12) for v in a['h']]
+    return case
 
 
 def bad_positions(cls, dim, opts, pts_per_array):
@@ -187,6 +281,43 @@ def degenerate(case):
                          [a['pts'] for a in case['arrays']])
 
 
+def refill(pa):
+    """every property except the geometry and the tag carries the particle's
+    unique id (`oid`): component k of property P of particle q is
+    16*oid[q] + k.  Exact in every C type used (float: oid < 2^20)."""
+    n = pa.get_number_of_particles()
+    oid = pa.get_carray('oid').get_npy_array().astype(np.int64)
+    for nm in pa.properties:
+        if nm in GEOM or nm == 'oid':
+            continue
+        st = int(pa.stride.get(nm, 1))
+        arr = pa.get_carray(nm).get_npy_array()
+        arr[:] = np.repeat(oid, st) * 16 + np.tile(np.arange(st), n)
+
+
+def torn(snap, n):
+    """names of the properties whose value is not the one of the particle
+    (`oid`) in the slot"""
+    oid = snap['oid'][1].astype(np.int64)
+    bad = []
+    for nm in sorted(snap):
+        if nm in GEOM or nm == 'oid':
+            continue
+        st, d = snap[nm]
+        if len(d) != n * st:
+            bad.append(nm + '(length %d, expected %d)' % (len(d), n * st))
+            continue
+        want = oid[:, None] * 16 + np.arange(st)[None, :]
+        w = np.nonzero((np.asarray(d).reshape(n, st) != want).any(axis=1))[0]
+        if len(w):
+            k = int(w[0])
+            bad.append('%s (stride %d): %d of %d slots, e.g. slot %d holds '
+                       'particle %d but %s=%s'
+                       % (nm, st, len(w), n, k, int(oid[k]), nm,
+                          np.asarray(d).reshape(n, st)[k].tolist()))
+    return bad
+
+
 def build(case):
     pas = []
     for a in case['arrays']:
@@ -202,13 +333,117 @@ def build(case):
         # get_particle_array aligned the array: identify particles by their
         # slot now
         pa.get_carray('oid').get_npy_array()[:] = np.arange(n)
-        pa.get_carray('gid').get_npy_array()[:] = np.arange(n) + 1000
-        pa.get_carray('u').get_npy_array()[:] = np.arange(n) * 0.5
-        for j, (nm, ty, st) in enumerate(a['extra']):
-            v = np.arange(n * st) + 100000 * (j + 1)
-            pa.get_carray(nm).get_npy_array()[:] = v
+        refill(pa)
         pas.append(pa)
     return pas
+
+
+def make_domain(case):
+    d = case.get('domain')
+    if not d:
+        return None
+    L = case['ext'] / 64.0
+    per = d['periodic']
+    return DomainManager(xmin=0.0, xmax=L, ymin=0.0, ymax=L, zmin=0.0, zmax=L,
+                         periodic_in_x=bool(per[0]), periodic_in_y=bool(per[1]),
+                         periodic_in_z=bool(per[2]))
+
+
+def pts_of(pa):
+    g = lambda k: np.round(pa.get_carray(k).get_npy_array() * 64.0)  # noqa
+    return [list(t) for t in zip(g('x').astype(int).tolist(),
+                                 g('y').astype(int).tolist(),
+                                 g('z').astype(int).tolist())]
+
+
+def tmp_array(pa, op, oids, new):
+    """an array with the properties of `pa` (+ `new`) holding the particles
+    of an add/append operation"""
+    m = len(op['pts'])
+    P = np.array(op['pts'], dtype=float).reshape(m, 3) / 64.0
+    t = get_particle_array(
+        name='tmp', x=P[:, 0].copy(), y=P[:, 1].copy(), z=P[:, 2].copy(),
+        h=np.array(op['h'], dtype=float) / 64.0,
+        tag=np.array(op['tag'], dtype=np.int32))
+    for nm in pa.properties:
+        if nm not in t.properties:
+            t.add_property(nm, type=pa.properties[nm].get_c_type(),
+                           stride=int(pa.stride.get(nm, 1)))
+    for nm, ty, st in new:
+        if nm not in t.properties:
+            t.add_property(nm, type=ty, stride=st)
+    t.get_carray('oid').get_npy_array()[:] = oids
+    return t
+
+
+def apply_op(case, op, pas, nxt, R):
+    """one edit of the history on the real arrays; returns
+    (applied, size changed, property set changed)"""
+    ai = op['a']
+    pa = pas[ai]
+    n = pa.get_number_of_particles()
+    kind = op['op']
+    per = bool(case.get('domain'))
+    # the clouds the structure will be rebuilt on: in a periodic box the
+    # Ghost particles are removed and made anew by the next domain update
+    live = [[(not per) or t != 2 for t in
+             p.get_carray('tag').get_npy_array().tolist()] for p in pas]
+    cand = [[q for q, l in zip(pts_of(p), lv) if l]
+            for p, lv in zip(pas, live)]
+    if kind in ('add', 'append'):
+        m = len(op['pts'])
+        cand[ai] = cand[ai] + [list(q) for q in op['pts']]
+        if bad_positions(case['cls'], case['dim'], case['opts'], cand):
+            R.count('edit-skipped-degenerate')
+            return False, False, False
+        oids = np.arange(nxt[ai], nxt[ai] + m)
+        nxt[ai] += m
+        if kind == 'add':
+            P = np.array(op['pts'], dtype=float).reshape(m, 3) / 64.0
+            pa.add_particles(x=P[:, 0].copy(), y=P[:, 1].copy(),
+                             z=P[:, 2].copy(),
+                             h=np.array(op['h'], dtype=float) / 64.0,
+                             tag=np.array(op['tag'], dtype=np.int32),
+                             oid=oids.astype(np.int32))
+            return True, True, False
+        new = [q for q in op.get('new', []) if q[0] not in pa.properties]
+        pa.append_parray(tmp_array(pa, op, oids, new))
+        return True, True, bool(new)
+    if kind == 'remove':
+        rr = random.Random(op['seed'])
+        m = max(0, min(n - 1, int(round(op['frac'] * n))))
+        sel = sorted(rr.sample(range(n), m)) if m else []
+        cand[ai] = [q for k, q in enumerate(pts_of(pa))
+                    if k not in set(sel) and live[ai][k]]
+        if not sel or not cand[ai] or bad_positions(case['cls'], case['dim'], case['opts'],
+                                    cand):
+            R.count('edit-skipped-degenerate')
+            return False, False, False
+        pa.remove_particles(np.array(sel, dtype=np.int64))
+        return True, True, False
+    if kind == 'addprop':
+        nm, ty, st = op['prop']
+        if nm in pa.properties:
+            return False, False, False
+        pa.add_property(nm, type=ty, stride=st)
+        return True, False, True
+    if kind == 'ensure':
+        new = [q for q in op['props'] if q[0] not in pa.properties]
+        if not new:
+            return False, False, False
+        src = get_particle_array(name='src', x=[0.0])
+        for nm, ty, st in new:
+            src.add_property(nm, type=ty, stride=st)
+        pa.ensure_properties(src, [q[0] for q in new])
+        return True, False, True
+    if kind == 'rmprop':
+        nm = op['name']
+        if nm not in pa.properties or nm in GEOM or \
+                nm in ('oid', 'gid', 'pid'):
+            return False, False, False
+        pa.remove_property(nm)
+        return True, False, True
+    raise SystemExit('unknown edit ' + repr(op))
 
 
 def snapshot(pa):
@@ -414,12 +649,15 @@ def brute(pas, si, di, d, rs):
 
 
 def pick_queries(pas, rng, maxq=12):
-    """destination particles to query, by identity (oid), per array"""
+    """destination particles to query, by identity (oid), per array; copies
+    made by a periodic domain share the oid of their original: only
+    particles whose oid is unique in the array are used"""
     out = []
     for pa in pas:
-        nd = pa.get_number_of_particles()
-        out.append(list(range(nd)) if nd <= maxq else
-                   sorted(rng.sample(range(nd), maxq)))
+        o = pa.get_carray('oid').get_npy_array()
+        v, c = np.unique(o, return_counts=True)
+        u = [int(x) for x in v[c == 1].tolist()]
+        out.append(u if len(u) <= maxq else sorted(rng.sample(u, maxq)))
     return out
 
 
@@ -504,6 +742,11 @@ def run_case(case, R, jobs, tagno):
     try:
         pas = build(case)
         kw = dict(case['opts'])
+        dom = make_domain(case)
+        if dom is not None:
+            kw['domain'] = dom
+        n_built = [p.get_number_of_particles() for p in pas]
+        props_built = [set(p.properties) for p in pas]
         nn = getattr(NN, cls)(dim=case['dim'], particles=pas,
                               radius_scale=rs, **kw)
     except Exception as e:      # noqa
@@ -514,7 +757,32 @@ def run_case(case, R, jobs, tagno):
     s.particles = pas
     s.nnps = nn
     ind = LongArray()
+    nxt = list(n_built)          # next unused particle id, per array
+    edits = case.get('edits') or []
     for r in range(case['rounds']):
+        # ---- the history: edit the arrays the structure was built on
+        ed = edits[r] if r < len(edits) else None
+        resized = reshaped = False
+        if ed and ed['ops']:
+            try:
+                for op in ed['ops']:
+                    ok, a, b = apply_op(case, op, pas, nxt, R)
+                    resized = resized or a
+                    reshaped = reshaped or b
+                    if ok:
+                        R.count('edit:' + op['op'])
+                for pa in pas:
+                    refill(pa)
+                if resized or dom is not None or (reshaped and ed['update']):
+                    # as the integrator does after the particle count changed
+                    nn.update_domain()
+                    nn.update()
+            except Exception as e:      # noqa
+                pf('C17:%s:raised' % cls, 'editing the arrays (round %d: %s) '
+                   'and updating the search structure works'
+                   % (r, [o['op'] for o in ed['ops']]),
+                   '%s: %s' % (type(e).__name__, e))
+                return fails
         mv = case['moves'][r]
         if mv is not None:
             mr = random.Random(mv)
@@ -535,7 +803,25 @@ def run_case(case, R, jobs, tagno):
                 for pa, cur in zip(pas, newpos):
                     for k, ax in enumerate('xyz'):
                         pa.get_carray(ax).get_npy_array()[:] = cur[k] / 64.0
+                if dom is not None:
+                    nn.update_domain()
                 nn.update()
+        for ai, pa in enumerate(pas):
+            if pa.get_number_of_particles() != n_built[ai]:
+                R.count('reorder-with-n-unlike-construction')
+            if dom is not None and np.any(
+                    pa.get_carray('tag').get_npy_array() == 2):
+                R.count('reorder-with-domain-made-ghosts')
+            if set(pa.properties) - props_built[ai]:
+                R.count('reorder-with-late-property')
+            if props_built[ai] - set(pa.properties):
+                R.count('reorder-with-removed-property')
+        for ai, pa in enumerate(pas):
+            # (a periodic DomainManager keeps its own ghost arrays: a property
+            # removed from the array comes back, default-valued, with the
+            # next ghosts -- C07's territory; here it is just one more
+            # property that has to travel)
+            refill(pa)
         queries = pick_queries(pas, random.Random(qrng.random()))
         before_bad = nbr_check(nn, pas, rs, queries)
         idxs, snaps, nreal0 = [], [], []
@@ -558,8 +844,10 @@ def run_case(case, R, jobs, tagno):
                 pf('C17:%s:indices-not-a-permutation' % cls,
                    'ordered indices of array %d (round %d) are a permutation '
                    'of 0..%d' % (ai, r, n - 1),
-                   'len=%d missing=%s repeated=%s out-of-range=%s'
-                   % (len(idx), miss, dup,
+                   'len=%d (array has %d particles now, had %d when the '
+                   'structure was constructed) missing=%s repeated=%s '
+                   'out-of-range=%s'
+                   % (len(idx), n, n_built[ai], miss, dup,
                       [i for i in idx if not 0 <= i < n][:5]))
             # ---- model: traversal order
             if cls in FAMILY:
@@ -594,15 +882,26 @@ def run_case(case, R, jobs, tagno):
             nreal = int(pa.num_real_particles)
             # ---- oracle 2: same multiset of whole particles
             rb, ra = rows_of(snaps[ai], n), rows_of(after, n)
-            if sorted(rb) != sorted(ra) or \
+            t0 = torn(snaps[ai], n) if 'oid' in snaps[ai] else []
+            t1 = torn(after, n) if 'oid' in after and not t0 and \
+                set(after) == set(snaps[ai]) else []
+            if t0:
+                R.note('%s case %d round %d: properties not with their '
+                       'particle BEFORE the re-ordering: %s'
+                       % (cls, tagno, r, t0[:3]))
+            if sorted(rb) != sorted(ra) or t1 or \
                     set(after) != set(snaps[ai]) or \
                     any(len(after[k][1]) != len(snaps[ai][k][1]) for k in after):
                 lost = [x for x in rb if x not in set(ra)][:2]
+                late = sorted(set(after) - props_built[ai])
                 pf('C17:%s:particles-not-preserved' % cls,
                    'array %d round %d: the multiset of whole particles (all '
-                   '%d properties, every stride component) is unchanged'
-                   % (ai, r, len(after)),
-                   'e.g. particle rows no longer present: %s' % (lost,))
+                   '%d properties the array has now, every stride component) '
+                   'is unchanged and every property still holds the value of '
+                   'the particle in its slot' % (ai, r, len(after)),
+                   'properties torn off their particle: %s; properties added '
+                   'after the structure was made: %s; e.g. particle rows no '
+                   'longer present: %s' % (t1[:4], late, lost))
             # ---- oracle 3: real particles first
             tg = after['tag'][1]
             nloc = int(np.sum(tg == 0))
@@ -668,6 +967,10 @@ def check_cases(cases, R, tag0=0):
             with open(os.environ['C17_TRACE'], 'w') as fh:
                 json.dump({'tag': tag0 + k, 'case': c}, fh)
         fails = run_case(c, R, jobs, tag0 + k)
+        if os.environ.get('C17_TRACE') and (
+                (fails and len(R.d['property_failures']) <= 20) or k % 100 == 99):
+            # what was found so far survives a later hard crash
+            R.write(os.environ['C17_TRACE'] + '.partial')
         cls = c['cls']
         R.count('class:' + cls)
         R.count('narr:%d' % len(c['arrays']))
@@ -677,6 +980,10 @@ def check_cases(cases, R, tag0=0):
             R.count('with-nonlocal-tags')
         if any(a['extra'] for a in c['arrays']):
             R.count('with-strided-or-typed-props')
+        if any(e['ops'] for e in c.get('edits') or []):
+            R.count('history-with-edits-between-reorders')
+        if c.get('domain'):
+            R.count('periodic-domain')
         ntot = sum(len(a['pts']) for a in c['arrays'])
         R.case(json.dumps(c, sort_keys=True), ntot >= 3,
                {'case': {'cls': cls, 'n': [len(a['pts']) for a in c['arrays']]},
@@ -722,6 +1029,43 @@ def corpus():
                              if cls == 'OctreeNNPS' else {}),
                     'radius_scale': 2.0, 'rounds': 2, 'moves': [None, None],
                     'ext': 64})
+    # round-2 seeds: state of the arrays cached when the structure was made.
+    pts = [[60, 60, 0], [0, 0, 0], [4, 3, 0], [33, 2, 0]]
+    none = {'ops': [], 'update': False}
+    for cls in ('LinkedListNNPS', 'ZOrderNNPS', 'ExtendedZOrderNNPS',
+                'StratifiedSFCNNPS', 'CellIndexingNNPS', 'OctreeNNPS',
+                'CompressedOctreeNNPS'):
+        opts = ({'leaf_max_particles': 2, 'test_parallel': False}
+                if 'Octree' in cls else {})
+        base = {'cls': cls, 'dim': 2, 'opts': opts, 'radius_scale': 2.0,
+                'ext': 64}
+        # A2 (stale particle count): the array grows, then shrinks below
+        # its size at construction, between re-orderings
+        out.append(dict(base, arrays=[arr(pts, [16] * 4, [0] * 4)],
+                        rounds=3, moves=[None] * 3, edits=[
+            none,
+            {'ops': [{'op': 'add', 'a': 0, 'pts': [[20, 50, 0], [50, 20, 0]],
+                      'h': [16, 16], 'tag': [0, 0]}], 'update': True},
+            {'ops': [{'op': 'remove', 'a': 0, 'frac': 0.5, 'seed': 1}],
+             'update': True}]))
+        # A2: the ghosts of a periodic box are made after the wrappers
+        out.append(dict(base, ext=128, arrays=[arr(
+            [[2, 60, 0], [64, 3, 0], [125, 100, 0], [30, 30, 0]],
+            [8] * 4, [0] * 4)], rounds=1, moves=[None],
+            domain={'periodic': [True, True, False]}))
+        # B2 (stale property list): properties added after construction
+        # (scalar, strided, integer) must travel in the very next re-order
+        out.append(dict(base, arrays=[arr(pts, [16] * 4, [0, 0, 2, 0],
+                                          [('A', 'double', 3)])],
+                        rounds=2, moves=[None, 12345], edits=[
+            {'ops': [{'op': 'addprop', 'a': 0, 'prop': ['T', 'double', 1]},
+                     {'op': 'addprop', 'a': 0, 'prop': ['V3', 'double', 3]},
+                     {'op': 'ensure', 'a': 0, 'props': [['Q', 'int', 1]]}],
+             'update': False},
+            {'ops': [{'op': 'rmprop', 'a': 0, 'name': 'A'},
+                     {'op': 'append', 'a': 0, 'pts': [[10, 40, 0]],
+                      'h': [16], 'tag': [0], 'new': [['W2', 'float', 2]]}],
+             'update': True}]))
     return out
 
 
@@ -733,9 +1077,15 @@ def main():
         '(uniform / clustered / lattice / coincident points, constant or '
         'variable h), random Local/Remote/Ghost tags, optional strided and '
         'typed properties (double x3, int x2, long, unsigned x4, float x2, '
-        'double x9), 1-3 rounds of reorder_particles() with optional motion '
-        'in between; distinct = distinct case JSON; non-trivial = at least 3 '
-        'particles')
+        'double x9), 1-4 rounds of reorder_particles() on ONE search '
+        'structure with optional motion in between; half of the cases are '
+        'histories that edit the arrays between the re-orderings (add_particles'
+        ' / append_parray / remove_particles, add_property / ensure_properties '
+        '/ append of an array with new properties / remove_property, scalar '
+        'and strided, 5 C types) and 30% of those use a periodic '
+        'DomainManager whose ghosts are made after the structure; every '
+        'particle carries a unique id in every property; distinct = distinct '
+        'case JSON; non-trivial = at least 3 particles')
     if a.replay and a.tier != 'child':
         # the replayed input may crash the interpreter (a wrong stride makes
         # c_align_array read outside the index array): run it in a child
@@ -763,29 +1113,47 @@ def main():
         check_cases(cc, R, 300000)
         R.write(a.out)
         return
-    trace = os.path.join(a.work, 'c17-canary-trace.json')
-    rc = subprocess.call(
-        [sys.executable, os.path.abspath(__file__), '--tier', 'canary',
-         '--seed', str(a.seed), '--work', a.work,
-         '--out', os.path.join(a.work, 'c17-canary.json')],
-        env=dict(os.environ, C17_TRACE=trace))
-    if rc != 0:
-        # the implementation killed the child: report the input it died on
-        # instead of dying the same way here
-        try:
-            tr = json.load(open(trace))
-            case = tr['case']
-        except Exception:      # noqa
-            raise SystemExit('canary child failed (%s) before any case' % rc)
-        R.prop_fail('C17:%s:crash' % case['cls'], case,
-                    're-ordering this input completes (get_spatially_ordered_'
-                    'indices, reorder_particles, update, neighbour queries)',
-                    'the interpreter running it died with %s'
-                    % ('signal %d' % -rc if rc < 0 else 'exit code %d' % rc))
-        R.case(json.dumps(case, sort_keys=True), True, None)
-        R.d['search'] = {'extra_cases': 0, 'found': 1,
-                         'note': 'main stream not run: it would crash too'}
-        R.write(a.out)
+    if not a.tier.endswith(':main'):
+        # parent: the implementation is run in expendable child processes (a
+        # wrong index list or a stale array makes c_align_array read outside
+        # its buffers); a child that dies is reported with the input it died
+        # on and whatever it had found before
+        for child_tier in ('canary', a.tier + ':main'):
+            trace = os.path.join(a.work, 'c17-%s-trace.json'
+                                 % child_tier.replace(':', '-'))
+            out = a.out if child_tier != 'canary' else \
+                os.path.join(a.work, 'c17-canary.json')
+            cmd = [sys.executable, os.path.abspath(__file__), '--tier',
+                   child_tier, '--seed', str(a.seed), '--work', a.work,
+                   '--out', out]
+            if a.broken:
+                cmd += ['--broken', a.broken]
+            rc = subprocess.call(cmd, env=dict(os.environ, C17_TRACE=trace))
+            if rc == 0:
+                continue
+            try:
+                case = json.load(open(trace))['case']
+            except Exception:      # noqa
+                raise SystemExit('%s child failed (%s) before any case'
+                                 % (child_tier, rc))
+            try:
+                R.d = json.load(open(trace + '.partial'))
+            except Exception:      # noqa
+                pass
+            R.prop_fail('C17:%s:crash' % case['cls'], case,
+                        're-ordering this input completes (edits, update, '
+                        'get_spatially_ordered_indices, reorder_particles, '
+                        'update, neighbour queries)',
+                        'the interpreter running it died with %s'
+                        % ('signal %d' % -rc if rc < 0 else
+                           'exit code %d' % rc))
+            R.case(json.dumps(case, sort_keys=True), True, None)
+            R.d['search'] = {'extra_cases': 0,
+                             'found': len(R.d['property_failures']),
+                             'note': 'the %s child died; cases after it '
+                             'were not run' % child_tier}
+            R.write(a.out)
+            return
         return
     R.count('canary-ok')
     classes = discover()
@@ -798,13 +1166,14 @@ def main():
     if missing:
         R.note('modelled classes not found in pysph.base.nnps: %s' % missing)
     rng = random.Random(a.seed * 7919 + 17)
-    per = 250 if a.tier == 'quick' else 2500
+    per = 250 if a.tier.startswith('quick') else 2500
     check_cases([c for c in corpus() if c['cls'] in classes], R, 100000)
     R.count('corpus', len(corpus()))
     cases = []
     for cls in classes:
         for i in range(per):
-            cases.append(gen_case(rng, cls, big=(a.tier != 'quick')))
+            cases.append(gen_case(rng, cls,
+                                  big=not a.tier.startswith('quick')))
     check_cases(cases, R, 0)
     if a.broken or R.d['disagreements']:
         rng2 = random.Random(a.seed + 12345)
